@@ -1,17 +1,45 @@
 (* C16 - An octet string's content is the concatenation of its primitive segments.
    Statements only; every proof is `exact <lemma>` from Proofs/OctStrP.v.
 
-   STATUS: partial. Proved: all views are derived from one segment list
-   (octets = concatenation in order, length, emptiness); primitive values;
-   DER re-encoding = primitive TLV of the content with the reported length.
-   NOT proved: acceptance per mode as a statement about the tree shape and
-   "segment walk over captured content = leaves of the tree" (needs the
-   nested skip simulation, see C10); both are decided by c16.decode /
-   c16.encode against a reference built from the generated segmentation.
+   Proved (Proofs/OctGrammarP.v, through the grammar of C02), all inputs:
+     C16_segments_are_leaves - over captured content that is a grammar string
+       of values that are all OCTET STRINGs (nested to any depth, definite or
+       indefinite, empty segments and empty constructed values included), the
+       segment iterator yields exactly the contents of the primitive leaves in
+       encoding order, and the octet view is their concatenation;
+     C16_constructed_ber - a constructed octet string accepted in BER had as
+       content such a grammar string (inside an indefinite-length value the
+       captured content additionally ends with the end-of-contents - the root
+       of known finding D17), and segments, octets and length are those of
+       the leaves' concatenation;
+     all views are derived from the one segment list; primitive values; DER
+     re-encoding = primitive TLV of the content.
+   PARTIAL: the converse for BER (every such string IS accepted) and the CER
+   shape rule (primitive segments of 1000 octets, only the last shorter) are
+   decided by c16.decode (all 156 CER shapes enumerated) and not proved.
    BER re-encoding of values whose outermost form was indefinite is the known
    finding D17 (C16_ber_reencode_indefinite_refuted, KNOWN-FINDING). *)
 Require Import BV.Model.Base BV.Model.SrcB BV.Model.Length BV.Model.Tag BV.Model.Content BV.Model.OctStr.
-Require Import BV.Proofs.OctStrP.
+Require Import BV.Proofs.ContentP BV.Proofs.GrammarP BV.Proofs.SkipP BV.Proofs.OctStrP BV.Proofs.OctGrammarP.
+
+Theorem C16_segments_are_leaves : forall m ts ds,
+  encs m ts ds -> accepts octet_filter (traces ts 0) = true -> octets_ok ds = true ->
+  os_segments (OCons ds) = Ok (leaves_l ts) /\ os_octets (OCons ds) = Ok (concat (leaves_l ts)).
+Proof. exact segments_are_leaves. Qed.
+
+Theorem C16_constructed_ber : forall fuel c s o c' s',
+  nf s -> octets_ok (rem s) = true ->
+  take_constructed_ber fuel c s = (Ok (o, c'), s') ->
+  exists ts, accepts octet_filter (traces ts 0) = true /\
+    os_segments o = Ok (leaves_l ts) /\ os_octets o = Ok (concat (leaves_l ts)) /\
+    os_len o = Ok (len (concat (leaves_l ts))) /\
+    exists b, o = OCons b /\ rem s = b ++ rem s' /\
+      match cst c with
+      | Indefinite => exists ds lw0, b = ds ++ 0 :: lw0 /\ encs (cmd c) ts ds
+      | _ => encs (cmd c) ts b
+      end.
+Proof. exact constructed_ber_is_segments. Qed.
+
 
 Theorem C16_views_consistent_partial : forall o segs, os_segments o = Ok segs ->
   os_octets o = Ok (concat segs) /\ os_len o = Ok (len (concat segs)) /\
@@ -44,6 +72,8 @@ Example C16_ex_cer_rejects_segment_after_short :
   octstr_take_from Cer T_OCTET_STRING [36;128; 4;1;97; 4;1;98; 0;0] = CErr.
 Proof. vm_compute. reflexivity. Qed.
 
+Print Assumptions C16_segments_are_leaves.
+Print Assumptions C16_constructed_ber.
 Print Assumptions C16_views_consistent_partial.
 Print Assumptions C16_primitive_views.
 Print Assumptions C16_der_reencoding.
